@@ -448,7 +448,12 @@ func (te *TemporalEvaluator) resolveFutureOperatorInterval(interval ast.Interval
 		return ast.Interval{}, err
 	}
 
-	// For future operators, the interval is from start to end (not swapped)
+	// For future operators, the interval is from start to end (not swapped),
+	// unless the bounds were written the other way round ([+[7d, 0d]): like
+	// the past operators, the window is then put in chronological order.
+	if start.Type == ast.TimestampBound && end.Type == ast.TimestampBound && start.Timestamp > end.Timestamp {
+		return ast.NewInterval(end, start), nil
+	}
 	return ast.NewInterval(start, end), nil
 }
 
